@@ -60,6 +60,11 @@ def _match_val(want, have):
             return False
         if "any_of" in want:
             return any(_match_val(w, have) for w in want["any_of"])
+        if "every_path" in want:
+            # every entry of a structural diff ([path, a, b]) concerns one of the listed path fragments
+            return bool(have) and all(any(frag in str(h[0]) for frag in want["every_path"]) for h in have)
+        if "max" in want:
+            return isinstance(have, (int, float)) and have <= want["max"]
         if "subseq" in want:
             it = iter(have or [])
             return all(any(_match_val(w, h) for h in it) for w in want["subseq"])
